@@ -33,20 +33,47 @@ def judge(strategy, x, lookup, fill, result, via):
     ctx.monitor("search_post:" + strategy)
     want = S.search([v.item() if hasattr(v, "item") else v for v in x],
                     [v.item() if hasattr(v, "item") else v for v in lookup], strategy, fill)
-    ok = isinstance(result, np.ndarray) and result.ndim == 1 and len(result) == len(lookup) \
-        and result.dtype.kind == "i" and [int(v) for v in result] == want
-    if ok and strategy == "closest":
-        # `want` compares the two ROUNDED float distances, as the documented formula read in floating point does.  The
-        # statement says "nearest": judged exactly, the rounded comparison is wrong when the distances differ by less than
-        # half an ulp of the larger one.  That is a known finding (K2), classified by its mechanism: the code agrees with
-        # the float-arithmetic reading and disagrees with the exact one.
+    shape_ok = isinstance(result, np.ndarray) and result.ndim == 1 and len(result) == len(lookup) \
+        and result.dtype.kind == "i"
+    got = [int(v) for v in result] if shape_ok else None
+    ok = shape_ok and got == want
+    if shape_ok and strategy == "closest":
+        # The statement says "nearest": judged by EXACT rational distances.  Where the code's answer differs from the
+        # exact one, it is the known finding K2 if - and only if - the two candidates are neighbours and their distances
+        # to the query, each rounded the way one floating-point subtraction of the Python scalars rounds it, do not
+        # separate them in favour of the exact answer (the documented rule applied to the ROUNDED distances gives the code's
+        # answer; an exact tie is never K2).
+        # Any other disagreement is a violation.
         xs_ = [v.item() if hasattr(v, "item") else v for v in x]
-        exact = [S.closest_exact(xs_, (q.item() if hasattr(q, "item") else q)) for q in lookup]
-        if exact != want:
+        qs_ = [q.item() if hasattr(q, "item") else q for q in lookup]
+        exact = [S.closest_exact(xs_, q) for q in qs_]
+        if got == exact:
+            return True
+        k2 = True
+        for g, e, q in zip(got, exact, qs_):
+            if g == e:
+                continue
+            if abs(g - e) != 1 or not (0 <= g < len(xs_)):
+                k2 = False
+                break
+            try:
+                from fractions import Fraction
+                exact_tie = abs(Fraction(q) - Fraction(xs_[g])) == abs(Fraction(xs_[e]) - Fraction(q))
+                dg, de = abs(float(q - xs_[g])), abs(float(xs_[e] - q))
+                # a true tie has nothing to do with rounding (it must go to the lower element); with rounded distances
+                # the answer must still follow the documented rule applied to THEM: smaller wins, equal goes to the lower
+                k2 = (not exact_tie) and (dg < de or (dg == de and g < e))
+            except Exception:
+                k2 = False
+            if not k2:
+                break
+        if k2:
             ctx.violation("search:closest:nearest_by_exact_distance", Slot.case,
                           {"x": x, "lookup": lookup, "got": result, "exact": exact, "via": via},
                           mechanism="K2-closest-float-distances-round-to-a-tie")
-        return True
+            return True
+        ok = False
+        want = exact
     if not ok:
         ctx.violation("search:%s%s" % (strategy, "" if fill else ":nofill"), Slot.case,
                       {"x": x, "lookup": lookup, "fill_not_valid": fill, "got": result, "want": want, "via": via})
